@@ -180,6 +180,42 @@ func (c *Ctx) mustPrecede(fn *ssa.Function, a Sel, aname string, b Sel, bname st
 	return true
 }
 
+// mustReachBefore: from every start, no instruction matching bad is reachable
+// without first passing an instruction matching b.
+func (c *Ctx) mustReachBefore(fn *ssa.Function, what string, starts []start, b Sel, bname string, bad Sel, badname string, minStarts int) bool {
+	construct := fmt.Sprintf("%s | from %s | %s before %s", c.nm(fn), what, bname, badname)
+	pos := c.P.Pos(fn.Pos())
+	if len(starts) < minStarts {
+		c.undecided(construct, pos, fmt.Sprintf("found %d start point(s) %q, the rule table requires at least %d", len(starts), what, minStarts))
+		return false
+	}
+	if len(find(fn, b)) == 0 || len(find(fn, bad)) == 0 {
+		c.undecided(construct, pos, fmt.Sprintf("%d site(s) of %s and %d of %s in the function: the rule table needs both", len(find(fn, b)), bname, len(find(fn, bad)), badname))
+		return false
+	}
+	var viol, sites []string
+	for _, s := range starts {
+		sites = append(sites, "from:"+s.desc)
+		ir.Walk(s.b, s.idx, nil, func(in ssa.Instruction) bool {
+			if b(in) {
+				return false
+			}
+			if bad(in) {
+				viol = append(viol, fmt.Sprintf("%s at %s reachable from %s without %s", badname, c.at(in), s.desc, bname))
+			}
+			return true
+		})
+	}
+	c.R.CallSites += len(starts)
+	sort.Strings(viol)
+	if len(viol) > 0 {
+		c.fail(construct, pos, join(viol), sites...)
+		return false
+	}
+	c.pass(construct, pos, fmt.Sprintf("from %d start point(s) every path passes %s before any %s", len(starts), bname, badname), sites...)
+	return true
+}
+
 // neverAfter: no instruction matching b is reachable after an instruction
 // matching a.
 func (c *Ctx) neverAfter(fn *ssa.Function, a Sel, aname string, b Sel, bname string, minA int, cut ir.Cut) bool {
